@@ -147,10 +147,26 @@ pub fn build(
         let vftable_path = vftable_type.path.clone();
         // The vftable type is re-inserted on every attempt to resolve this type; anything
         // else at its path is a declaration that it would silently replace.
-        if semantic
-            .type_registry
-            .get(&vftable_path)
-            .is_some_and(|existing| existing != &vftable_type)
+        // A declaration of that name in the module conflicts whatever its state of resolution is
+        // (a resolved one may happen to equal the generated type).
+        let declared_in_module = semantic
+            .get_module_for_path(resolvee_path)
+            .zip(vftable_path.last())
+            .is_some_and(|(module, name)| {
+                let name = util::plain_ident(name.as_str());
+                module
+                    .ast
+                    .definitions
+                    .iter()
+                    .map(|d| d.name.as_str())
+                    .chain(module.ast.extern_types.iter().map(|(n, _)| n.as_str()))
+                    .any(|declared| util::plain_ident(declared) == name)
+            });
+        if declared_in_module
+            || semantic
+                .type_registry
+                .get(&vftable_path)
+                .is_some_and(|existing| existing != &vftable_type)
         {
             anyhow::bail!(
                 "the vftable type `{vftable_path}` generated for `{resolvee_path}` conflicts with an existing type of the same name"
